@@ -55,19 +55,17 @@ Refused(e) == e.reply.t = "error" /\ e.reply.s = "OLD_EPOCH"
 SeenOk(e) == Fault(e) # "dropreply" /\ (Applied(e) \/ Refused(e))
 
 \* ---- the proxy side: Coord!InstallR / InstallC ----
+\* what the log has shown a proxy to hold, per message kind; -1 = not known (installed before the log started)
+Held(p, k) == IF p \in DOMAIN inst THEN inst[p][k] ELSE -1
 GateDiv(e) ==
-    LET p == e.to  k == MsgKind(e)  ep == EpochOf(e)
-        known == p \in DOMAIN inst
-        cur == IF known THEN inst[p][k] ELSE 0 IN
-    IF e.reply.t = "lost" \/ Forced(e) THEN {}
-    ELSE (IF known /\ Applied(e) /\ ep <= cur THEN {"gate_accepted_not_newer"} ELSE {}) \cup
-         (IF known /\ Refused(e) /\ ep > cur THEN {"gate_refused_newer"} ELSE {})
+    LET p == e.to  k == MsgKind(e)  ep == EpochOf(e)  cur == Held(p, k) IN
+    IF e.reply.t = "lost" \/ Forced(e) \/ cur < 0 THEN {}
+    ELSE (IF Applied(e) /\ ep <= cur THEN {"gate_accepted_not_newer"} ELSE {}) \cup
+         (IF Refused(e) /\ ep > cur THEN {"gate_refused_newer"} ELSE {})
 GateNext(e) ==
     LET p == e.to  k == MsgKind(e)  ep == EpochOf(e)
-        old == Get(inst, p, [C |-> 0, R |-> 0]) IN
-    IF Applied(e) THEN With(inst, p, [old EXCEPT ![k] = ep])
-    ELSE IF Refused(e) /\ p \notin DOMAIN inst THEN inst          \* still unknown (installed before the log started)
-    ELSE inst
+        old == Get(inst, p, [C |-> -1, R |-> -1]) IN
+    IF Applied(e) THEN With(inst, p, [old EXCEPT ![k] = ep]) ELSE inst
 
 \* ---- migration chains of a coordinator that wait for a given step ----
 MKeys(who, pcs, field, addr) == {k \in DOMAIN mg : k[1] = who /\ mg[k].pc \in pcs /\ (field = "" \/ mg[k][field] = addr)}
